@@ -56,6 +56,7 @@ package compile
 // error reports a compile error by panicking (caught by Compiler.recover): it never returns.
 //@ func (*Compiler).error
 //@   modifies *
+//@   keeps map[string]bool
 //@   preserves c.filter
 //@   ensures false
 //@ func (*Compiler).buildListChildren
